@@ -24,6 +24,8 @@ PUB_H = r'''#ifndef VFPUB_H
 #define MAKE_PROPERTY(...) __make_property(__VA_ARGS__)
 #define MAKE_SEQ(...) __make_seq(__VA_ARGS__)
 #define MAKE_SEQ_PROPERTY(...) __make_seq_property(__VA_ARGS__)
+#define MAKE_MAP_PROPERTY(...) __make_map_property(__VA_ARGS__)
+#define MAKE_MAP_KEYS_SEQ(...) __make_map_keys_seq(__VA_ARGS__)
 #else
 #ifndef PUBLISHED
 #define PUBLISHED public
@@ -42,6 +44,12 @@ PUB_H = r'''#ifndef VFPUB_H
 #endif
 #ifndef MAKE_SEQ_PROPERTY
 #define MAKE_SEQ_PROPERTY(...)
+#endif
+#ifndef MAKE_MAP_PROPERTY
+#define MAKE_MAP_PROPERTY(...)
+#endif
+#ifndef MAKE_MAP_KEYS_SEQ
+#define MAKE_MAP_KEYS_SEQ(...)
 #endif
 #endif
 #endif
@@ -729,6 +737,8 @@ class Gen:
                         cls["methods"].append(f)
             if r.random() < 0.35:
                 self.gen_seqprop(cls, ind)
+            if self.ext is True and r.random() < 0.3:
+                self.gen_mapprop(cls, ind)
         # operators
         if r.random() < 0.5 * self.size:
             for op in r.sample(["==", "+", "[]c", "()", "neg", "cast", "<"], r.choice([1, 2, 3])):
@@ -935,6 +945,35 @@ class Gen:
         roles = ["num", "get", "set", "remove", "insert"]
         cls["seqprops"].append(dict(name=sname, qname=cls["qname"] + "::" + sname, doc=d,
                                     **{roles[i]: fns[i]["qname"] for i in range(len(fns))}))
+
+    def gen_mapprop(self, cls, ind):
+        """(v3) MAKE_MAP_PROPERTY with 2..4 accessors (has, get[, set[, clear]]) and optionally MAKE_MAP_KEYS_SEQ"""
+        r = self.r
+        mname = self.ident("mp_")
+        I = T("int", c="int")
+        P = lambda n, t=I: dict(name=n, type=t, default=None, default_value=None)
+        hs = self.gen_function(cls, "method", name="has_" + mname, ret=T("bool"), params=[P("key")], const=True, indent=ind)
+        g = self.gen_function(cls, "method", name="get_" + mname, ret=I, params=[P("key")], const=True, indent=ind)
+        fns = [hs, g]
+        k = r.choice([2, 3, 4, 4])
+        if k >= 3:
+            fns.append(self.gen_function(cls, "method", name="set_" + mname, ret=T("void"), params=[P("key"), P("v")], indent=ind))
+        if k >= 4:
+            fns.append(self.gen_function(cls, "method", name="clear_" + mname, ret=T("void"), params=[P("key")], indent=ind))
+        cls["methods"] += fns
+        d = self.doc(ind)
+        self.h.append(f"{ind}MAKE_MAP_PROPERTY({mname}, " + ", ".join(f["name"] for f in fns) + ");")
+        roles = ["has", "get", "set", "clear"]
+        mp = dict(name=mname, qname=cls["qname"] + "::" + mname, doc=d, **{roles[i]: fns[i]["qname"] for i in range(len(fns))})
+        if r.random() < 0.7:
+            nk = self.gen_function(cls, "method", name="get_num_" + mname + "_keys", ret=I, params=[], const=True, indent=ind)
+            self.fix_body_return(nk, "2")
+            gk = self.gen_function(cls, "method", name="get_" + mname + "_key", ret=I, params=[P("n")], const=True, indent=ind)
+            cls["methods"] += [nk, gk]
+            self.h.append(f"{ind}MAKE_MAP_KEYS_SEQ({mname}, {nk['name']}, {gk['name']});")
+            mp["num_keys"] = nk["qname"]
+            mp["getkey"] = gk["qname"]
+        cls.setdefault("mapprops", []).append(mp)
 
     def gen_template(self):
         """a class template with two typedef'd instantiations (v2); bodies are shared, entity ids come from a trait"""
